@@ -59,9 +59,14 @@ def find_entry(repo: Repo) -> tuple[FuncInfo, set[str], set[str]]:
             elif p in ("external_exclusions", "regex_external_exclusions"):
                 seeds[(api.fq, p)] = {"EXT"}
     flow = None
-    if seeds:
-        flow = Flow(repo, T, Spec(param_seeds=seeds, scope=lambda f: f.module.name == API or f.module.name.startswith(SCAN_PKG)))
-    if entry is None and flow is not None:
+
+    def get_flow():
+        nonlocal flow
+        if flow is None and seeds:
+            flow = Flow(repo, T, Spec(param_seeds=seeds, scope=lambda f: f.module.name == API or f.module.name.startswith(SCAN_PKG)))
+        return flow
+
+    if entry is None and get_flow() is not None:
         # by role: functions of the scan package called from the public module that receive the option
         cands = []
         for f in repo.all_functions():
@@ -77,9 +82,9 @@ def find_entry(repo: Repo) -> tuple[FuncInfo, set[str], set[str]]:
     # context-insensitive: a helper shared by the internal and the external patterns would taint both)
     flag = {p for p in entry.param_names if p == "exclude_external_libraries"}
     ext = {p for p in entry.param_names if p in ("external_exclusions", "regex_external_exclusions")}
-    if not flag and flow is not None:
+    if not flag and get_flow() is not None:
         flag = {p for p in entry.param_names if "FLAG" in flow.param_tags.get((entry.fq, p), ())}
-    if not ext and flow is not None:
+    if not ext and get_flow() is not None:
         ext = {p for p in entry.param_names if "EXT" in flow.param_tags.get((entry.fq, p), ())}
         named = {p for p in ext if "external" in p}
         ext = named or ext
@@ -98,7 +103,7 @@ def build_model(repo: Repo) -> tuple[M.Interp, set[str], str]:
     internal = named_internal_tests(repo)
     how = "by name (is_internal_module)"
     it = M.Interp(repo, entry, flag, ext, internal)
-    it.run()
+    interpret(it)
     if not internal or not it.int_calls:
         # by role: with externals excluded exactly the imports accepted by one pure predicate of the importee remain
         cand = None
@@ -117,8 +122,19 @@ def build_model(repo: Repo) -> tuple[M.Interp, set[str], str]:
                 internal = {fi.fq}
                 how = f"by role ({fi.qualname}: the predicate that alone decides which imports remain when externals are excluded)"
                 it = M.Interp(repo, entry, flag, ext, internal)
-                it.run()
+                interpret(it)
     return it, internal, how
+
+
+def interpret(it: M.Interp) -> None:
+    try:
+        it.run()
+    except AnalysisError:
+        raise
+    except RecursionError as e:
+        raise AnalysisError(f"C10 model: interpretation of {it.entry.qualname} does not terminate ({' -> '.join(x.rsplit('::', 1)[-1] for x in it.stack[-6:])})") from e
+    except Exception as e:  # noqa: BLE001 - a construct the interpreter does not handle is not a verdict
+        raise AnalysisError(f"C10 model: interpretation of {it.entry.qualname} failed in {it.stack[-1].rsplit('::', 1)[-1] if it.stack else '?'}: {type(e).__name__}: {e}") from e
 
 
 # --------------------------------------------------------------------------- formula helpers
@@ -441,14 +457,29 @@ def zip_truncations(repo: Repo, funcs: list[FuncInfo]) -> list[tuple[FuncInfo, a
     return out
 
 
+def add_sites(repo: Repo, res: Result, rule: str, sites) -> int:
+    """One obligation per classified F-NAME site (same reporting as C14.R1)."""
+    n = 0
+    for s in sites:
+        key = repo.key(s.fi, stmt_of(s.node)) + f" [{s.op}: {norm(s.node, 70)}]"
+        if s.verdict in ("safe", "unsafe"):
+            n += 1
+            res.add(rule, key, s.verdict == "safe", s.why, where(s.fi, s.node), kind="flow")
+        elif s.verdict == "reviewed":
+            res.observe(f"{rule} reviewed site {s.fi.relpath}::{s.fi.qualname}: `{norm(s.node, 60)}` - {s.why}")
+        elif s.verdict == "unknown":
+            res.undecide(rule, key, s.why, where(s.fi, s.node))
+        elif s.verdict == "unclassified":
+            res.observe(f"{rule} unclassified (not armed) {s.fi.relpath}::{s.fi.qualname}: `{norm(s.node, 60)}` - {s.why}")
+    return n
+
+
 def run_r2(repo: Repo, res: Result, it: M.Interp, internal: set[str], how: str) -> None:
     stop = {f.fq for f in repo.all_functions() if f.cls is not None and any(c.name == M.SINK_CLASS for c in repo.mro(f.cls))}
     reach = reachable_funcs(repo, [it.entry], byname=True, stop=stop)
     reach_fq = {f.fq for f in reach if f.fq not in stop and not (f.cls is not None and not f.module.name.startswith(SCAN_PKG) and any(c.name == "EvaluableArchitectureGraph" for c in repo.mro(f.cls)))}
     reach_fq |= {f.fq for f in internal_closure(repo, internal)}
     sites = [s for s in names.scan(repo) if s.fi.fq in reach_fq or (s.fi.outer is not None and s.fi.outer.fq in reach_fq)]
-    from .c14 import add_sites
-
     add_sites(repo, res, "C10.R2", sites)
     # the expected number of unsafe sites is zero and a refactoring may legitimately remove every string operation on names
     # (comparison of component lists): the positive fixture shows on every run that the lint still bites
@@ -504,9 +535,10 @@ def run(repo: Repo) -> Result:
         check_sink(repo, res, it, s)
     run_r2(repo, res, it, internal, how)
     # ---- R5: the scan pipeline keeps no state between scans
-    from .c15 import shared_state_writes
+    from core.effects import Effects
 
-    ws = [w for w in shared_state_writes(repo) if w.fi.module.name.startswith(SCAN_PKG)]
+    eff = Effects(repo, types_of(repo))
+    ws = [w for f in repo.all_functions() if f.module.name.startswith(SCAN_PKG) for w in eff.writes(f) if w.root_kind in ("classvar", "global")]
     for w in ws:
         res.add("C10.R5", repo.key(w.fi, stmt_of(w.node)), False, f"`{header(stmt_of(w.node))}` keeps {w.root_kind} state `{w.root}.{w.field}` in the scan pipeline: verdicts about externals computed for one option set are served to the next scan", where(w.fi, w.node), kind="effect")
     res.add("C10.R5", "src/pytestarch/eval_structure_generation::no shared state", not ws, "no function of the scan pipeline writes class-level or module-level state", kind="effect")
